@@ -21,6 +21,7 @@ def main(patches):
     head = sh("git", "-C", "/repo", "rev-parse", "HEAD").stdout.strip()
     checks = sorted(os.path.basename(p)[:-3].upper() for p in glob.glob(os.path.join(VERIF, "hiolint/props/c*.py")))
     for patch in patches:
+        patch = os.path.abspath(patch)
         sh("git", "-C", WT, "checkout", "-q", "--detach", head)
         sh("git", "-C", WT, "reset", "-q", "--hard", head)
         r = sh("git", "-C", WT, "apply", patch)
@@ -31,8 +32,10 @@ def main(patches):
             continue
         env = dict(os.environ, HIOLINT_REPO=WT, HIOLINT_EVID="/tmp/seedtest.evid", HIOLINT_JOBS="1")
         hits = []
-        for c in checks:
-            r = sh(os.path.join(VERIF, "check"), c, env=env, cwd=VERIF)
+        from concurrent.futures import ThreadPoolExecutor
+        with ThreadPoolExecutor(16) as ex:
+            results = list(ex.map(lambda c: (c, sh(os.path.join(VERIF, "check"), c, env=env, cwd=VERIF)), checks))
+        for c, r in results:
             if r.returncode == 1:
                 first = [l for l in r.stdout.splitlines() if l.startswith("src/")][:2]
                 hits.append("%s VIOLATION x%d: %s" % (c, r.stdout.count("VIOLATION property"), " | ".join(x[:230] for x in first)))
